@@ -47,6 +47,9 @@ pub struct WorldCfg {
     /// so that a foreign defect does not cut its runs short); missing = all
     #[serde(default)]
     pub oracles: Option<Oracles>,
+    /// after the last operation: protect/validate round trip with edited stand-off texts (C18)
+    #[serde(default)]
+    pub validation_phase: bool,
 }
 
 #[derive(Clone, Debug, Serialize, Deserialize, PartialEq)]
@@ -84,6 +87,7 @@ impl Default for WorldCfg {
             probes: false,
             replicas: Vec::new(),
             oracles: None,
+            validation_phase: false,
         }
     }
 }
@@ -616,8 +620,22 @@ pub fn run_trace_raw(trace: &Trace) -> RunResult {
             };
         }
     }
+    if world.cfg.validation_phase && !trace.ops.is_empty() {
+        let last = trace.ops.len() - 1;
+        let v = crate::c18::validation_phase(&mut world, &mut stats, last);
+        if !v.is_empty() {
+            stats.final_fingerprint = world.model.fingerprint();
+            return RunResult {
+                violations: v,
+                step: Some(last),
+                stats,
+            };
+        }
+    }
     stats.final_fingerprint = world.model.fingerprint();
-    stats.faults_fired = world.fs.fired();
+    for (k, v) in world.fs.fired() {
+        *stats.faults_fired.entry(k).or_insert(0) += v;
+    }
     RunResult {
         violations: Vec::new(),
         step: None,
@@ -671,8 +689,27 @@ pub fn run_generated(run_seed: u64, profile: &dyn Fn(&mut Rng, &mut GenCfg, &mut
             return (trace, gcfg, result);
         }
     }
+    if world.cfg.validation_phase && !ops.is_empty() {
+        let last = ops.len() - 1;
+        let v = crate::c18::validation_phase(&mut world, &mut stats, last);
+        if !v.is_empty() {
+            stats.final_fingerprint = world.model.fingerprint();
+            let trace = Trace { world: wcfg, ops };
+            return (
+                trace,
+                gcfg,
+                RunResult {
+                    violations: v,
+                    step: Some(last),
+                    stats,
+                },
+            );
+        }
+    }
     stats.final_fingerprint = world.model.fingerprint();
-    stats.faults_fired = world.fs.fired();
+    for (k, v) in world.fs.fired() {
+        *stats.faults_fired.entry(k).or_insert(0) += v;
+    }
     let trace = Trace { world: wcfg, ops };
     let result = replica_check(
         &trace,
